@@ -37,7 +37,7 @@ def bounds(tier):
 
 
 def required_guards(tier):
-    return ['module', 'operator', 'inplace', 'none_operand', 'iterable_operand', 'multi_leaf_operand', 'ghost_operand',
+    return ['module', 'operator', 'reflected_operator', 'inplace', 'none_operand', 'iterable_operand', 'multi_leaf_operand', 'ghost_operand',
             'unchanged_checked']
 
 
@@ -60,6 +60,7 @@ FORMS = ['Set', 'TreeSet', 'TreeSet/thin', 'Bucket', 'BTree', 'BTree/thin', 'Set
          'Set/ghost', 'Bucket/ghost', 'list', 'list/shuffled+dup', 'tuple', 'gen', 'iter', 'pyset', 'dict', 'None']
 CONTAINER_FORMS = FORMS[:10]
 ONE_SHOT = ('gen', 'iter')
+REFLECTED_LEFT = ('list/shuffled+dup', 'tuple', 'pyset')
 
 _subs = {}
 GHOST = ('ghost',)
@@ -208,6 +209,7 @@ def job(fam, impl, n, variant):
     alg = {'union': lambda a, b: a | b, 'intersection': lambda a, b: a & b,
            'difference': lambda a, b: a - b, 'or': lambda a, b: a | b, 'and': lambda a, b: a & b,
            'sub': lambda a, b: a - b, 'xor': lambda a, b: a ^ b}
+    alg.update({'r' + k: alg[k] for k in ('or', 'and', 'sub', 'xor')})
     opers = [('or', operator.or_), ('and', operator.and_), ('sub', operator.sub), ('xor', operator.xor)]
     iopers = [('ior', operator.ior, 'or'), ('iand', operator.iand, 'and'),
               ('isub', operator.isub, 'sub'), ('ixor', operator.ixor, 'xor')]
@@ -243,7 +245,7 @@ def job(fam, impl, n, variant):
                         '%s -> %r, expected items %r' % (opname, content, want))
         # documented kinds for the module functions / operators on containers
         exp_kind = None
-        if opname in ('union', 'intersection', 'or', 'and'):
+        if opname in ('union', 'intersection', 'or', 'and', 'ror', 'rand'):
             exp_kind = setname
         elif opname in ('difference', 'sub') and ka in F.KINDS:
             exp_kind = setname if ka in SET_KINDS else bucketname
@@ -329,6 +331,31 @@ def job(fam, impl, n, variant):
                     if r[1] is not a and r[1] is not b and hasattr(r[1], 'clear'):
                         if run(r[1].clear)[0] == 'ok':
                             unchanged(name + '/result-cleared', a, b, sa, sb)
+                # ---- reflected operators: a plain iterable on the LEFT of a container (__ror__, __rand__,
+                # __rxor__, __rsub__ of the container)
+                if fa in REFLECTED_LEFT and b_is_cont and 'ghost' not in fb:
+                    for name, fn in opers:
+                        if name == 'xor' and kb not in SET_KINDS:
+                            continue    # the C Bucket/BTree have no ^
+                        a, b, sa, sb = fresh()
+                        r = run(lambda: fn(a, b))
+                        evaluations += 1
+                        guards['reflected_operator'] += 1
+                        rname = 'r' + name
+                        if name == 'sub' and kb not in SET_KINDS:
+                            # `iterable - mapping`: the mappings have no reflected subtraction, TypeError in
+                            # both implementations (difference() is defined for a container on the left)
+                            if r != ('exc', 'TypeError'):
+                                rep.add(dict(site=rname, cls='mapping-rsub', impl=impl, fa=ka, fb=kb), case,
+                                        '%s - %s -> %r, expected TypeError' % (fa, fb, r))
+                            guards['reflected_sub_mapping_refused'] += 1
+                            continue
+                        if r[0] != 'ok':
+                            rep.add(dict(site=rname, cls='exc-' + r[1], impl=impl, fa=ka, fb=kb), case,
+                                    '%s %s %s (reflected) raised %s' % (fa, name, fb, r[1]))
+                            continue
+                        check_result(rname, fa, fb, A, B, describe(r[1]), case, None)
+                        unchanged(rname, a, b, sa, sb)
                 if fa == 'None' or fb == 'None' or not a_is_cont:
                     continue
                 if 'thin' in fa or 'thin' in fb:
